@@ -24,6 +24,9 @@ def alphabet(tier):
         for k in (1, 2):
             ops.append(("sim", k, a, b, ()))  # logs kept, max_time possibly below the current time
     ops.append(("sim", BIG, True, True, tuple(range(1, 12))))  # eleven consecutive project-wide absence steps
+    for ab in ((1, 4), (1, 5), (1, 6), (0, 7, 8)):  # calendars that reach the end of the run and beyond it (one of them names exactly the step after the last one)
+        ops.append(("back", False, True, ab))
+        ops.append(("sim", BIG, True, True, ab))
     ops.append(("simauto", (0, 2)))  # simulate(absence=[0,2], perform_auto_task_while_absence_time=True)
     ops.append(("simauto", (1,)))
     ops.append(("reload",))  # write_simple_json, read into a NEW project, go on there
@@ -208,6 +211,7 @@ def replay_history(spec, hist):
                 viol.append(("C08:logs-not-aligned-after:reload", {"op": op, "k": k, "alignment": al}))
             continue
         before = S.dump(m, live=False) if op[0] == "reverse" else None
+        time_before = m.project.time
         try:
             apply_op(m, op, bad)
         except Exception as e:
@@ -247,6 +251,12 @@ def replay_history(spec, hist):
                     viol.append(("C08:backward-run-logs-not-reverse-of-unreversed-run:%s" % ",".join(kinds)[:90], {"op": op, "k": k, "differ": wrong[:6]}))
             except Exception:
                 pass
+        # a removal right after a complete run: exactly the absence steps that were simulated go (counted from the calendar as it was handed to that run)
+        if op[0] == "remove" and k > 0 and (hist[k - 1][0] == "back" or (hist[k - 1][0] == "sim" and hist[k - 1][1] == BIG and hist[k - 1][2] and hist[k - 1][3])) and time_before is not None:
+            ab_ = hist[k - 1][3] if hist[k - 1][0] == "back" else hist[k - 1][4]
+            want_t = time_before - len(set(a_ for a_ in ab_ if 0 <= a_ < time_before))
+            if m.project.time != want_t:
+                viol.append(("C08:remove-after-a-complete-run-deleted-another-number-of-steps-than-absence-steps-were-simulated", {"op": op, "k": k, "calendar": list(ab_), "steps_before": time_before, "time_after": m.project.time, "expected": want_t}))
         al = check_alignment(m)
         if al is not None:
             viol.append(("C08:logs-not-aligned-after:%s" % (op[0] if op[0] != "simu" else "simulate(unit_time=%d)" % op[1]), {"op": op, "k": k, "alignment": al}))
